@@ -111,7 +111,7 @@ def initial_trace(expr, px, py):
             arg = e.args[0]
             num = sp.simplify(arg * 2 * sp.sqrt(t))
             alpha = num.subs(t, 0).subs({x: px, y: py})
-            alpha = sp.nsimplify(alpha)
+            alpha = sp.simplify(alpha)
             if alpha.is_real is False or alpha == 0 or alpha.free_symbols:
                 raise AnalysisError('initial trace: argument %s has no '
                                     'definite sign at the sample point' %
@@ -153,8 +153,8 @@ def cert_K8_trace(repo, fname, domain):
     fi, w, real = lift_M0u0(prog, fname)
     u0 = lift_u0(prog, fname)
     init, poly = polygon_of(prog, domain)
-    xs = sorted({sp.nsimplify(p[0]) for p in poly})
-    ys = sorted({sp.nsimplify(p[1]) for p in poly})
+    xs = sorted({sp.simplify(p[0]) for p in poly})
+    ys = sorted({sp.simplify(p[1]) for p in poly})
 
     def samples(bs):
         pts = [bs[0] - sp.Rational(1, 2)]
